@@ -22,6 +22,7 @@ func main() {
 	repo := flag.String("repo", "/repo", "repository root to analyse")
 	verif := flag.String("verif", "", "verification directory (evidence, known findings); default: parent of the checker module")
 	list := flag.Bool("list", false, "list properties with rules")
+	dump := flag.Bool("dump", false, "print every obligation")
 	flag.Parse()
 	if *verif == "" {
 		if wd, err := os.Getwd(); err == nil {
@@ -66,7 +67,13 @@ func main() {
 	run := report.NewRun(*prop, *tier, seed)
 	run.Trusted = spec.Trusted
 	run.Assume = spec.Assume
-	os.Exit(check(run, spec, *repo, *verif, *tier))
+	code := check(run, spec, *repo, *verif, *tier)
+	if *dump {
+		for _, o := range run.Obs {
+			fmt.Printf("%-9s %s @%s :: %s\n", o.Verdict, o.Key, o.Pos, o.Detail)
+		}
+	}
+	os.Exit(code)
 }
 
 func check(run *report.Run, spec *rules.PropSpec, repo, verif, tier string) (code int) {
